@@ -378,6 +378,20 @@ func (e *enc) pureCallTerms(st *State, c *ssa.CallCommon, fn *ssa.Function, args
 		name = "pure_" + sanitize(ifaceKey(c.Value.Type(), c.Method.Name()))
 		all = append([]ssa.Value{c.Value}, args...)
 	} else {
+		if fn != nil && !e.p.isDatamon(fn) && isDetExternal(fn) && fn.Signature.Recv() == nil {
+			// deterministic library function over plain values (strings.HasPrefix, path.Base, ...)
+			for _, a := range args {
+				switch sortOf(a.Type()) {
+				case "Int", "Bool", "Str":
+				default:
+					return nil
+				}
+			}
+			if !valueLike(fn.Signature.Results()) {
+				return nil
+			}
+			return e.pureTerms(st, "pure_"+sanitize(externKeyOf(fn)), c.Signature(), args, nil)
+		}
 		if fn == nil || !e.p.isDatamon(fn) || !e.p.isDet(fn) {
 			return nil
 		}
@@ -735,22 +749,59 @@ func (e *enc) siteOrdinal(ins ssa.Instruction, short string) int {
 }
 
 // sendOrdinal numbers the sends on one channel expression in source order.
-func (e *enc) sendOrdinal(ins *ssa.Send, name string) int {
-	var list []*ssa.Send
+func (e *enc) sendOrdinal(pos token.Pos, name string) int {
+	var list []token.Pos
 	for _, b := range e.fn.Blocks {
 		for _, in := range b.Instrs {
-			if s, ok := in.(*ssa.Send); ok && e.valText(s.Chan) == name {
-				list = append(list, s)
+			switch s := in.(type) {
+			case *ssa.Send:
+				if e.valText(s.Chan) == name {
+					list = append(list, s.Pos())
+				}
+			case *ssa.Select:
+				for _, stt := range s.States {
+					if stt.Dir == types.SendOnly && e.valText(stt.Chan) == name {
+						list = append(list, stt.Pos)
+					}
+				}
 			}
 		}
 	}
-	sort.SliceStable(list, func(i, j int) bool { return list[i].Pos() < list[j].Pos() })
-	for i, s := range list {
-		if s == ins {
+	sort.SliceStable(list, func(i, j int) bool { return list[i] < list[j] })
+	for i, p := range list {
+		if p == pos {
 			return i + 1
 		}
 	}
 	return 0
+}
+
+// sendClauses applies "send <chan>#k assert|bind" clauses to a value offered on a channel.
+func (e *enc) sendClauses(st *State, ch ssa.Value, val ssa.Value, pos token.Pos) {
+	if e.c == nil {
+		return
+	}
+	sent := e.val(val)
+	name := e.valText(ch)
+	site := fmt.Sprintf("send:%s#%d", name, e.sendOrdinal(pos, name))
+	for _, cc := range e.c.calls[site] {
+		env := e.envFor(st, e.entry)
+		env.bound["$val"] = SVal{t: sent, typ: val.Type(), sort: sortOf(val.Type())}
+		switch cc.kind {
+		case "assert":
+			key := cc.label
+			if key == "" {
+				key = "assert"
+			}
+			g := e.evalBool(cc.expr, env, "send assertion "+site)
+			e.oblige("callsite", fmt.Sprintf("%s:%s", site, key), g, pos, cc.text)
+		case "bind":
+			v := e.evalSpec(cc.expr, env)
+			gc := e.ghostCellFor(cc.name, v)
+			st.cells[gc.cell] = v.t
+			st.cells[gc.cell+"_set"] = "true"
+		}
+	}
 }
 
 // tryEvalBool evaluates a clause; ok=false when it refers to identifiers unknown in this environment.
